@@ -304,14 +304,127 @@ def leg_after_fault(part, tier, shard, nshards):
     drive(part, "after-fault", after_fault_cases(tier), shard, nshards, check_after_fault)
 
 
-LEGS = {"errors": leg_errors, "success": leg_success, "after-fault": leg_after_fault}
+# -- beyond the small scope: every position of a large batch, long histories on one proxy, large error objects -----------------
+
+
+def scale_cases(tier):
+    sizes = (1100, 2500) if tier == "quick" else (1100, 2500, 20000)
+    for n in sizes:
+        for where in ("first", "middle", "last", "all-errors", "none"):
+            for access in ("index", "iterate"):
+                yield ("batch", n, where, access)
+    for n in (300, 3000):
+        for pattern in ("errors-then-result", "results-then-error", "alternate"):
+            yield ("history", n, pattern, "call")
+    for size in (5000, 200000):
+        for code in (-32000, 7):
+            yield ("big-error", size, code, "call")
+
+
+def check_scale(case):
+    what, n, a, b = case
+    out = Out(cls="scale/" + what)
+    if what == "batch":
+        pos = {"first": [0], "middle": [n // 2], "last": [n - 1], "all-errors": list(range(n)), "none": []}[a]
+        bad = set(pos)
+        batch = [({"jsonrpc": "2.0", "id": i, "error": {"code": 5 + (i % 2) * -32005, "message": "e%d" % i}} if i in bad else
+                  {"jsonrpc": "2.0", "id": i, "result": [i, None, ""][i % 3]}) for i in range(n)]
+        t = CannedTransport([json.dumps(batch)])
+        p = jsonrpclib.ServerProxy("http://h/", transport=t)
+        mc = jsonrpclib.MultiCall(p)
+        for i in range(n):
+            mc.m(i)
+        try:
+            res = mc()
+        except Exception as ex:
+            return out.bad("C06/multicall/raises-%s" % type(ex).__name__, "%r: executing the batch raised %r" % (case, ex))
+        probe = sorted(set(pos[:3] + pos[-3:] + [0, 1, n // 2 - 1, n // 2, n - 2, n - 1]))
+        if b == "index":
+            for i in probe:
+                try:
+                    v = res[i]
+                    if i in bad:
+                        out.bad("C06/multicall/error-swallowed", "%r: results[%d] returned %r for an error entry" % (case, i, v))
+                    elif not gen.same(v, [i, None, ""][i % 3]):
+                        out.bad("C06/multicall/result-changed", "%r: results[%d] = %r" % (case, i, v))
+                except J.ProtocolError as ex:
+                    if i not in bad:
+                        out.bad("C06/multicall/success-raises-ProtocolError", "%r: results[%d] raised %r" % (case, i, ex))
+                    elif (i % 2 == 0) != isinstance(ex, J.AppError):
+                        out.bad("C06/multicall/other-code-not-AppError" if i % 2 == 0 else "C06/multicall/predefined-code-not-plain-ProtocolError", "%r: results[%d] raised %r" % (case, i, ex))
+                except Exception as ex:
+                    out.bad("C06/multicall/raises-%s" % type(ex).__name__, "%r: results[%d] raised %r" % (case, i, ex))
+        else:
+            seen = 0
+            try:
+                for v in res:
+                    if not gen.same(v, [seen, None, ""][seen % 3]):
+                        out.bad("C06/multicall/result-changed", "%r: iteration item %d = %r" % (case, seen, v))
+                        break
+                    seen += 1
+                stopped = None
+            except J.ProtocolError as ex:
+                stopped = ex
+            except Exception as ex:
+                return out.bad("C06/multicall/raises-%s" % type(ex).__name__, "%r: iteration raised %r at item %d" % (case, ex, seen))
+            want_stop = min(bad) if bad else None
+            if (want_stop is None) != (stopped is None) or (want_stop is not None and seen != want_stop) or (want_stop is None and seen != n):
+                out.bad("C06/multicall/error-swallowed" if stopped is None else "C06/multicall/iteration-stops-at-wrong-item",
+                        "%r: iteration yielded %d items and %s, the first error entry is %r" % (case, seen, "raised %r" % stopped if stopped else "ended", want_stop))
+        return out
+    if what == "history":
+        replies = []
+        for i in range(n):
+            err = {"errors-then-result": i < n - 1, "results-then-error": i == n - 1, "alternate": i % 2 == 0}[a]
+            replies.append(json.dumps({"jsonrpc": "2.0", "id": i, "error": {"code": -32001 if i % 3 else 9, "message": "m%d" % i}} if err else
+                                      {"jsonrpc": "2.0", "id": i, "result": i % 2}))
+        t = CannedTransport(replies)
+        p = jsonrpclib.ServerProxy("http://h/", transport=t)
+        for i in range(n):
+            err = {"errors-then-result": i < n - 1, "results-then-error": i == n - 1, "alternate": i % 2 == 0}[a]
+            try:
+                v = p.m(i)
+                if err:
+                    return out.bad("C06/call/error-swallowed", "%r: call #%d returned %r for an error reply" % (case, i, v))
+                if not gen.same(v, i % 2):
+                    return out.bad("C06/call/result-changed", "%r: call #%d returned %r" % (case, i, v))
+            except J.ProtocolError as ex:
+                if not err:
+                    return out.bad("C06/call/success-raises-ProtocolError", "%r: call #%d raised %r" % (case, i, ex))
+                if (i % 3 == 0) != isinstance(ex, J.AppError):
+                    return out.bad("C06/call/other-code-not-AppError" if i % 3 == 0 else "C06/call/predefined-code-not-plain-ProtocolError", "%r: call #%d raised %r" % (case, i, ex))
+            except Exception as ex:
+                return out.bad("C06/call/raises-%s" % type(ex).__name__, "%r: call #%d raised %r" % (case, i, ex))
+        return out
+    msg = "long message " * (n // 13)
+    reply = {"jsonrpc": "2.0", "id": 1, "error": {"code": a, "message": msg, "data": {"trace": ["frame"] * (n // 50)}}}
+    for entry in ("check_for_errors", "call", "multicall-1"):
+        how, val = invoke(entry, reply)
+        if how == "ret":
+            out.bad("C06/%s/error-swallowed" % entry.split("-")[0], "%r: %s returned for a %d-character error" % (case, entry, n))
+        elif not isinstance(val, J.ProtocolError) or (a == 7) != isinstance(val, J.AppError):
+            out.bad("C06/%s/raises-%s-for-dict-with-code-error" % (entry.split("-")[0], type(val).__name__), "%r: %s raised %s" % (case, entry, type(val).__name__))
+        else:
+            args = val.args[0]
+            if not (isinstance(args, tuple) and args[0] == a and args[1] == msg):
+                out.bad("C06/%s/protocol-error-message" % entry.split("-")[0], "%r: %s raised with a changed message (%d characters)" % (case, entry, len(str(args[1])) if isinstance(args, tuple) and len(args) > 1 else -1))
+    return out
+
+
+def leg_scale(part, tier, shard, nshards):
+    drive(part, "scale", scale_cases(tier), shard, nshards, check_scale)
+
+
+LEGS = {"errors": leg_errors, "success": leg_success, "after-fault": leg_after_fault, "scale": leg_scale}
 
 META = {
     "technique": "bounded-exhaustive enumeration of reply objects x client entry points against a reference error classifier",
     "rule": "error member ranges over scalar/array/single-entry shapes and over every object of the grammar code(22) x message(5) x "
     "trace(2) x data(5); x 4 envelope forms x id {1,null} x 9 entry points (check_for_errors on dict replies, on OrderedDict replies and on dict/list-subclass replies, call, notification, MultiCall access at 3 positions, iteration); success side: every JSON value (depth<=1 quick, <=2 thorough) x "
     "3 envelope forms x 9 entry points; after-fault: an error reply following a truncated / non-JSON / non-200 exchange (bodies larger than the read size) on the "
-    "same proxy through the real transport over the in-memory network; all cases are non-trivial (each reaches a classification branch); distinct by encoded case",
+    "same proxy through the real transport over the in-memory network; scale: batches of 1100/2500 (thorough 20000) results with the error entry first / in the "
+    "middle / last / everywhere / nowhere, read by index and by iteration; 300 and 3000 calls on one proxy (errors then a result, results then an error, alternating); "
+    "error objects with 5000- and 200000-character messages; all cases are non-trivial (each reaches a classification branch); distinct by encoded case",
     "bounds": {"quick": {"value_depth": 1, "batch_len": 3}, "thorough": {"value_depth": "1 exhaustively, plus depth 2 up to 60000 values in simplest-first order", "batch_len": 3}},
     "assumptions": [
         "falsy-but-not-null error members (0, '', [], {}) are neither 'non-empty' nor 'null or absent' in the property text and are not asserted",
@@ -325,6 +438,8 @@ def replay(case):
     c = eval(case["case"], {"__builtins__": {}}, {})
     if case["leg"] == "after-fault":
         return check_after_fault(c).viols
+    if case["leg"] == "scale":
+        return check_scale(c).viols
     if case["leg"] == "errors":
         return check_error(c).viols
     return check_success(c).viols
